@@ -83,9 +83,12 @@ def make_cosine(rng, case):
     if rng.random() < 0.5:
         case["proj"] = dict(kind="none", sp=None, wk="none", how="Projection", mappable=False, wtype="np")
     else:
-        w = rng.choice([0.5, 2.0, 1.0])
+        # low-magnitude projected vectors (gradient-like: norms around 1e-4 .. 1e-5) included
+        w = rng.choice([0.5, 2.0, 1.0, 2.0 ** -14, 2.0 ** -17, 2.0 ** -17])
         case["proj"] = dict(kind="wconst", sp=None, wk="const", w=[w, w], how="Projection", mappable=rng.random() < 0.4,
                             wtype=rng.choice(["np", "tf"]))
+
+
 RETURNS = ["examples", "distances", "labels", "include_inputs", "indices"]
 
 
@@ -170,6 +173,7 @@ def generate(rng, tier):
         # a quarter of the cases re-use the object with another k (set through the public setter)
         if c["n"] >= 2 and rng.random() < 0.25:
             c["k2"] = rng.choice([k for k in range(1, c["n"] + 1) if k != c["k"]])
+        c["hold"] = rng.random() < 0.3
     return cases
 
 
@@ -382,6 +386,10 @@ def run_impl(case):
     Q = np.array(case["qs"], dtype=np.float32).reshape([nq] + case["shape"])
     QT = np.array(case["qtargets"], dtype=np.float32) if case["qtargets"] is not None else None
     out = se.explain(Q, QT)
+    if case.get("hold"):
+        # history: the first result is kept by the caller (results collected in a list) and read only AFTER another
+        # explain call of the same size on the same object
+        se.explain((0.5 - np.roll(Q, 1, axis=0)).astype(np.float32), None if QT is None else np.roll(QT, 1, axis=0))
     res = collect(case, out, nq)
     if case.get("k2"):
         # "for every k": k changed through the public setter on the SAME object, then explain again
